@@ -219,6 +219,12 @@ class MessageManager(interfaces.TokenInterface, interfaces.MessageManager):
         """If the message is the response can be used to satisfy a future
         duplicate message, store it."""
 
+        if message.mtype not in (ACK, RST):
+            # Only ACKs and RSTs carry the message ID of the message they
+            # answer; any other outgoing message has a message ID of our own
+            # that may coincide with a recently received one by chance.
+            return
+
         key = (message.remote, message.mid)
         if key in self._recent_messages:
             self._recent_messages[key] = message
